@@ -110,3 +110,11 @@ send_config!(q13_send_channel_config_r20, 20);
 send_config!(q13_send_channel_config_r32, 32);
 send_config!(q13_send_channel_config_r4095, 4095);
 send_config!(q13_send_channel_config_r4096, 4096);
+
+// native replay slot (cargo kani playback): the driver points IPA_VERIF_REPLAY_DIR at a directory
+// holding one file per hook; the generated test calls the harness by its path relative to this module.
+#[cfg(test)]
+mod replay_here {
+    use super::*;
+    include!(concat!(env!("IPA_VERIF_REPLAY_DIR"), "/send.rs"));
+}
